@@ -113,6 +113,8 @@ func init() {
 		}
 		var t tokens
 		var serveRes chan error
+		var extra []chan error // Serve calls made while the server was already serving and that did not return at once
+		var lis net.Listener
 		l := k.ints
 		for len(l) > 0 {
 			switch l[0] {
@@ -146,7 +148,29 @@ func init() {
 				l = l[1:]
 			case 5:
 				ch := make(chan error, 1)
-				go func() { ch <- s.Serve(nil) }()
+				nl, lerr := net.Listen("tcp", "127.0.0.1:0")
+				if lerr != nil {
+					return append(t, 996)
+				}
+				go func() { ch <- s.Serve([]net.Listener{nl}) }()
+				if serveRes != nil {
+					// Serve while already serving: it must come back with an error; if it stays (serving a second
+					// time) keep it so that the Close below waits for it too
+					select {
+					case err := <-ch:
+						nl.Close()
+						if err != nil && !errors.Is(err, bgp.ErrServerClosed) {
+							t.add(5, 3)
+						} else {
+							t.add(5, 4)
+						}
+					case <-time.After(150 * time.Millisecond):
+						extra = append(extra, ch)
+						t.add(5, 2)
+					}
+					l = l[1:]
+					continue
+				}
 				started := false
 				deadline := time.Now().Add(2 * time.Second)
 				var early error
@@ -165,6 +189,7 @@ func init() {
 				}
 				if started {
 					serveRes = ch
+					lis = nl
 					t.add(5, 1)
 				} else if errors.Is(early, bgp.ErrServerClosed) {
 					t.add(5, 0)
@@ -174,6 +199,13 @@ func init() {
 				l = l[1:]
 			case 6:
 				s.Close()
+				for _, ch := range extra {
+					select {
+					case <-ch:
+					case <-time.After(5 * time.Second):
+					}
+				}
+				extra = nil
 				if serveRes != nil {
 					select {
 					case err := <-serveRes:
@@ -190,8 +222,34 @@ func init() {
 					t.add(6, 0)
 				}
 				l = l[1:]
+			case 7: // the listener fails under a running Serve
+				if serveRes != nil && lis != nil {
+					lis.Close()
+					select {
+					case err := <-serveRes:
+						if err != nil && !errors.Is(err, bgp.ErrServerClosed) {
+							t.add(7, 1)
+						} else {
+							t.add(7, 98)
+						}
+					case <-time.After(5 * time.Second):
+						t.add(7, 97)
+					}
+					serveRes = nil
+					lis = nil
+				} else {
+					t.add(7, 0)
+				}
+				l = l[1:]
 			default:
 				return append(t, 998)
+			}
+		}
+		for _, ch := range extra {
+			s.Close()
+			select {
+			case <-ch:
+			case <-time.After(5 * time.Second):
 			}
 		}
 		if serveRes != nil { // never leave a server running
